@@ -258,10 +258,10 @@ fn meshes_and_clouds(rng: &mut Rng) {
 pub fn run(rng: &mut Rng, n: usize) {
     for _ in 0..n {
         for _ in 0..4 {
-            isometries(rng);
-            surface_points_and_planes(rng);
+            case("xform.case", "c03.library_call_panics", || isometries(rng));
+            case("xform.case", "c03.library_call_panics", || surface_points_and_planes(rng));
         }
-        curves(rng);
-        meshes_and_clouds(rng);
+        case("xform.case", "c03.library_call_panics", || curves(rng));
+        case("xform.case", "c03.library_call_panics", || meshes_and_clouds(rng));
     }
 }
